@@ -631,7 +631,9 @@ def run(ctx):
     if not done or done[0][1] != len(events):
         raise MachineryError(f'trace validation incomplete: {done} vs {len(events)} events')
     ctx.traces(len(events))
-    _judge_control(ctx, events, keep)
+    rejected_lines = {r[1] for r in tr.tagged('REJECT')}
+    # the control corrupts events the judge ACCEPTED (so its outcome cannot depend on the code under test)
+    _judge_control(ctx, [e for i, e in enumerate(events) if i + 1 not in rejected_lines], keep)
     for _, line, _tid, clause in tr.tagged('REJECT'):
         e = events[line - 1]
         what = e.get('kind') or (e.get('model') or {}).get('kind') or e.get('what', '')
